@@ -159,9 +159,9 @@ Definition set_index (c i v : val) : res val :=
   | VArr t l =>
     match index_of i with
     | Some z => if int_ovf z then Err Overflow
+                else if negb (subtype (dyn v) t) then Err UserOther   (* the mutation check comes first *)
                 else if (z <? 0) || (Z.of_nat (length l) <=? z) then Err IndexOOB
-                else if subtype (dyn v) t then Ok (VArr t (set_nth l (Z.to_nat z) v))
-                else Err UserOther
+                else Ok (VArr t (set_nth l (Z.to_nat z) v))
     | None => Err Internal
     end
   | VDict tk tv l =>
